@@ -15,7 +15,7 @@ ASSUMPTIONS = ["the simulated connection records a Write event at the instant Wr
 def scenario(rng, k, big):
     s = []
     n = 0
-    fam = rng.below(7)
+    fam = rng.below(8)
     if fam == 0:
         # strictly sequential notifications and calls-with-cancel: program order must be wire order
         for _ in range(2 + rng.below(5)):
@@ -86,6 +86,16 @@ def scenario(rng, k, big):
                 n += 1; s.append(scn.call(n, pad=rng.below(8)))
             for i in range(n, 0, -1):
                 s.append(scn.cancel(i))
+        nt = 1
+    elif fam == 7:
+        # the connection refuses one or two writes whole with an error that calls itself temporary: whatever the library makes
+        # of it, the notifier runs once per call and no seqno is handed to the connection twice
+        n += 1; s.append(scn.notify(n))
+        s.append("writetemp/%d" % (1 + rng.below(2)))
+        n += 1; s.append(scn.call(n, nowait=True)); s.append("sleep/30"); s.append(scn.cancel(n))
+        n += 1; s.append(scn.notify(n, nowait=True)); s.append("sleep/30")
+        s.append("writeok")
+        n += 1; s.append(scn.call(n, pad=3, nowait=True)); s.append("sleep/5"); s.append(scn.cancel(n))
         nt = 1
     elif fam == 6:
         # a strictly sequential sender against a writer that is stuck inside Write: sends whose context ends while they
